@@ -313,15 +313,16 @@ def candle_consts(kind, fcls, ccls, nw, nt, ratio, np_, maxlen, permlen, fulllen
                 TMax=1, Thresholds="{0}", Deviations="{}")
 
 
-def tlc_candle(res, name, consts, timeout):
+def tlc_candle(res, name, consts, timeout, invariants):
     r = vlib.run_tlc("Agg", name, timeout=timeout,
-                     cfg_text=vlib.cfg_text(consts, invariants=["RefinesCandles", "OrderIndependent", "Composes", "EmitCandle"], spec="SpecCandle"))
+                     cfg_text=vlib.cfg_text(consts, invariants=invariants + ["EmitCandle"], spec="SpecCandle"))
     vlib.tlc_ok(r, name)
     if r["violated"]:
         raise Undecided("MODEL-DRIFT: %s violates %s in the model\n%s" % (name, r["violated"], r["out"][-3000:]))
     if r["records"].get("BAD"):
         raise Undecided("unparsable TLC records in %s: %s" % (name, r["records"]["BAD"][:2]))
     res.tlc(r, name)
+    vlib.log("[tlc] %s: %s distinct states, %.1fs, %d cases" % (name, r.get("distinct"), r["wall_s"], len(r["records"].get("CASE", []))))
     return r["records"].get("CASE", [])
 
 
@@ -333,18 +334,18 @@ def run_c21(tier):
     quick = tier == "quick"
     # (kind, window class, NW, NT, NP, MaxLen, PermLen, FullLen, SampleMod)
     if quick:
-        plan = [("tick", "duration", 3, 3, 3, 4, 3, 2, 48), ("candle", "daily", 2, 2, 3, 3, 3, 1, 128),
-                ("tick", "daily", 3, 3, 4, 3, 3, 2, 16), ("candle", "duration", 2, 2, 2, 3, 3, 2, 4)]
+        plan = [("tick", "duration", 2, 3, 3, 4, 3, 2, 16), ("tick", "duration", 3, 3, 4, 3, 3, 2, 12), ("tick", "daily", 3, 3, 4, 3, 3, 2, 12),
+                ("candle", "duration", 1, 3, 3, 3, 3, 1, 48), ("candle", "daily", 2, 2, 2, 3, 3, 2, 4)]
     else:
         plan = [("tick", "duration", 3, 3, 5, 4, 3, 2, 64), ("tick", "daily", 3, 3, 4, 4, 3, 2, 96),
-                ("candle", "duration", 2, 3, 3, 3, 3, 1, 48), ("candle", "daily", 3, 2, 3, 3, 3, 1, 96)]
+                ("candle", "duration", 2, 3, 3, 3, 3, 1, 48), ("candle", "duration", 2, 2, 3, 3, 3, 1, 32), ("candle", "daily", 2, 2, 3, 3, 3, 1, 32)]
     cases, meta = [], {}
     n = 0
     per_tf = {}
     for kind, cls, nw, nt, np_, maxlen, permlen, fulllen, mod in plan:
-        name = "Agg_c21_%s_%s.cfg" % (kind, cls)
+        name = "Agg_c21_%s_%s_%dx%dx%d_len%d.cfg" % (kind, cls, nw, nt, np_, maxlen)
         consts = candle_consts(kind, cls, cls, nw, nt, 1, np_, maxlen, permlen, fulllen, mod, rng.randrange(mod))
-        tcases = tlc_candle(res, name, consts, 1500 if quick else 3000)
+        tcases = tlc_candle(res, name, consts, 1500 if quick else 3000, ["RefinesCandles", "OrderIndependent"])
         if len(tcases) < 10:
             raise Undecided("TLC emitted only %d cases for %s" % (len(tcases), name))
         res.cov.setdefault("cases_emitted", {})[name] = len(tcases)
@@ -360,7 +361,9 @@ def run_c21(tier):
             cases.append({"id": cid, "ops": ops})
             meta[json.dumps(cid)] = (case, c, ops)
             per_tf[tf[0]] = per_tf.get(tf[0], 0) + 1
+    vlib.log("[C21] %d cases concretised, replaying" % len(cases))
     obs = vlib.run_cases(binary, cases, timeout=1200 if quick else 3000)
+    vlib.log("[C21] replay done, comparing")
     nontrivial = set()
     for cid, (case, c, ops) in meta.items():
         o = obs.get(cid)
@@ -373,6 +376,13 @@ def run_c21(tier):
         res.cov["traces_validated_against_impl"] += 1
         for d in eval_c21(case, c, ops, o):
             res.violation(d, replay)
+        # model fidelity (coverage only, never a verdict): does the real output equal the implementation-shaped model's?
+        by, _ = out_cols(last_out(o[0])) if o else (None, None)
+        if by is not None and case["rows"]:
+            want = [[coarse_start(c, x[0])] + [c["pmap"][l - 1] for l in x[1:]] for x in case["impl"]]
+            got = [list(x) for x in zip(*[by.get(k, []) for k in ("Epoch", "Open", "High", "Low", "Close")])]
+            same = len(got) == len(want) and all(all(num_eq(a, b) for a, b in zip(g, w)) for g, w in zip(got, want))
+            res.cov["real_equals_implementation_shaped_model"] = res.cov.get("real_equals_implementation_shaped_model", 0) + (1 if same else 0)
         if any(e["cnt"] > 1 for e in case["exp"]):
             nontrivial.add(json.dumps(case["rows"]) + c["kind"])
         res.sample({"timeframe": c["coarse"], "input": c["kind"], "call": ops[0]["x"]["chain"], "rows": describe_rows(c, case["rows"]),
@@ -419,18 +429,19 @@ def run_c22(tier):
     quick = tier == "quick"
     # (kind, coarse class, NW, NT, Ratio, NP, MaxLen, PermLen, FullLen, SampleMod)
     if quick:
-        plan = [("tick", "duration", 2, 2, 2, 3, 4, 2, 2, 40), ("tick", "daily", 2, 2, 2, 3, 4, 2, 2, 160),
-                ("candle", "duration", 1, 2, 2, 3, 3, 2, 1, 128)]
+        plan = [("tick", "duration", 2, 2, 2, 3, 4, 2, 2, 40), ("tick", "daily", 2, 2, 2, 3, 3, 2, 2, 4),
+                ("candle", "duration", 1, 2, 2, 2, 3, 2, 2, 4)]
     else:
         plan = [("tick", "duration", 2, 2, 3, 3, 4, 2, 2, 64), ("tick", "daily", 2, 2, 2, 4, 4, 2, 2, 96),
-                ("candle", "duration", 1, 2, 3, 3, 3, 2, 1, 64), ("candle", "daily", 2, 2, 2, 2, 3, 2, 2, 8)]
+                ("candle", "duration", 1, 2, 3, 3, 3, 2, 1, 64), ("candle", "daily", 2, 2, 2, 2, 3, 2, 2, 8),
+                ("candle", "duration", 1, 2, 2, 3, 3, 2, 1, 48)]
     cases, meta = [], {}
     n = 0
     per_pair = {}
     for kind, ccls, nw, nt, ratio, np_, maxlen, permlen, fulllen, mod in plan:
-        name = "Agg_c22_%s_%s.cfg" % (kind, ccls)
+        name = "Agg_c22_%s_%s_%dx%dx%dx%d_len%d.cfg" % (kind, ccls, nw, ratio, nt, np_, maxlen)
         consts = candle_consts(kind, "duration", ccls, nw, nt, ratio, np_, maxlen, permlen, fulllen, mod, rng.randrange(mod))
-        tcases = tlc_candle(res, name, consts, 1500 if quick else 3000)
+        tcases = tlc_candle(res, name, consts, 1500 if quick else 3000, ["RefinesCandles", "Composes"])
         if len(tcases) < 10:
             raise Undecided("TLC emitted only %d cases for %s" % (len(tcases), name))
         res.cov.setdefault("cases_emitted", {})[name] = len(tcases)
@@ -446,7 +457,9 @@ def run_c22(tier):
             cases.append({"id": cid, "ops": ops})
             meta[json.dumps(cid)] = (case, c, ops)
             per_pair["%s|%s" % (fine[0], coarse[0])] = per_pair.get("%s|%s" % (fine[0], coarse[0]), 0) + 1
+    vlib.log("[C22] %d cases concretised, replaying" % len(cases))
     obs = vlib.run_cases(binary, cases, timeout=1200 if quick else 3000)
+    vlib.log("[C22] replay done, comparing")
     undecidable, compared, multi = 0, 0, set()
     for cid, (case, c, ops) in meta.items():
         o = obs.get(cid)
@@ -657,7 +670,9 @@ def run_c23(tier):
             cid = "g%d" % n
             cases.append({"id": cid, "ops": ops})
             meta[json.dumps(cid)] = ("gap", case, dict(ep=ep, sub=sub, scale=scale), ops)
+    vlib.log("[C23] %d cases concretised, replaying" % len(cases))
     obs = vlib.run_cases(binary, cases, timeout=1200 if quick else 3000)
+    vlib.log("[C23] replay done, comparing")
     counts = {"scalar": 0, "gap": 0, "gap_with_pairs": 0, "multi_batch": 0}
     for cid, (kind, case, c, ops) in meta.items():
         o = obs.get(cid)
